@@ -402,7 +402,7 @@ func (e *env) evalOnce(c *reqCase, refAccept bool, allowed []int) verdict {
 }
 
 // run evaluates one case, does the bookkeeping and reports violations.
-func (e *env) run(c *reqCase, refAccept bool, allowed []int, nontrivial bool, renonce func(*reqCase) *reqCase) {
+func (e *env) run(c *reqCase, refAccept bool, allowed []int, nontrivial bool) {
 	r, n := e.r, e.tl.n
 	v := e.evalOnce(c, refAccept, allowed)
 	if !v.Parsed {
@@ -410,6 +410,14 @@ func (e *env) run(c *reqCase, refAccept bool, allowed []int, nontrivial bool, re
 		e.tl.classes["unparseable "+e.family+":"+c.Class]++
 		return
 	}
+	defer func() {
+		// keep the listing far below its 1000-row limit (only matters when many requests are accepted)
+		if e.last != nil && len(e.last.ids) > 150 && e.s.sentinel != "" {
+			if e.s.reboot(e.s.sentinel) {
+				e.last = nil
+			}
+		}
+	}()
 	n["evaluations"]++
 	n[e.family+"_cases"]++
 	if refAccept {
@@ -453,58 +461,47 @@ func (e *env) run(c *reqCase, refAccept bool, allowed []int, nontrivial bool, re
 		}
 		return
 	}
-	key := fmt.Sprintf("%s:%s:%s:%s:%s", e.family, e.cfgName, c.Class, e.where, v.Kind)
+	key := e.family + ":" + e.cfgName + ":" + c.Class
+	if e.where != "" && e.where != "-" {
+		key += ":" + e.where
+	}
+	key += ":" + v.Kind
+	n["violating_cases"]++
+	flushMu.Lock()
+	dup := reported[key]
+	reported[key] = true
+	flushMu.Unlock()
+	if dup {
+		return // one report per failure class (same key); the first one carries the replay
+	}
 	replay := e.replayObj(c, refAccept, allowed, v)
 	r.Violation(key, fmt.Sprintf("%s [%s %s] %s %s: %s", e.family, e.cfgName, e.where, c.Class, c.Detail, v.Msg), replay, func() bool {
-		c2 := c
-		if renonce != nil {
-			c2 = renonce(c)
-		}
-		return e.evalOnce(c2, refAccept, allowed).Kind == v.Kind
+		return e.evalOnce(renonce(c), refAccept, allowed).Kind == v.Kind
 	})
 }
 
-type replayT struct {
-	Family     string   `json:"family"`
-	Config     string   `json:"config"`
-	DSL        string   `json:"dsl"`
-	Route      string   `json:"route"`
-	Now        string   `json:"virtual_now"`
-	Where      string   `json:"where"`
-	Class      string   `json:"class"`
-	Detail     string   `json:"detail"`
-	Method     string   `json:"method"`
-	Target     string   `json:"target"`
-	Headers    []hdr    `json:"headers"`
-	BodyB64    string   `json:"body_base64"`
-	RawB64     string   `json:"raw_request_base64"`
-	Forward    string   `json:"auth_service_behaviour,omitempty"`
-	FwdMode    string   `json:"fwd_mode,omitempty"`
-	FwdStatus  int      `json:"fwd_status,omitempty"`
-	RefAccepts bool     `json:"reference_accepts"`
-	Allowed    []int    `json:"statuses_the_statement_allows"`
-	Probe      bool     `json:"probe"`
-	Got        int      `json:"observed_status"`
-	Kind       string   `json:"failure"`
-	Notes      []string `json:"notes,omitempty"`
-}
+var reported = map[string]bool{}
 
-func (e *env) replayObj(c *reqCase, refAccept bool, allowed []int, v verdict) replayT {
-	rp := replayT{Family: e.family, Config: e.cfgName, DSL: e.dsl, Route: e.route, Now: time.Now().UTC().Format(time.RFC3339Nano), Where: e.where,
-		Class: c.Class, Detail: c.Detail, Method: c.Method, Target: c.Target, Headers: c.Hdrs, BodyB64: base64.StdEncoding.EncodeToString(c.Body),
-		RawB64: base64.StdEncoding.EncodeToString(rawRequest(c)), RefAccepts: refAccept, Allowed: allowed, Probe: c.Probe, Got: v.Status, Kind: v.Kind}
-	if e.fwd != nil {
-		rp.Forward, rp.FwdMode, rp.FwdStatus = e.fwd.b.String(), e.fwd.b.Mode, e.fwd.b.Status
+// renonce: the same request with fresh nonce values (a re-run must not trip replay protection).
+func renonce(c *reqCase) *reqCase {
+	c2 := *c
+	c2.Hdrs = append([]hdr(nil), c.Hdrs...)
+	for i := range c2.Hdrs {
+		if strings.HasPrefix(c2.Hdrs[i].V, "n-") && len(c2.Hdrs[i].V) == len("n-000000000") {
+			c2.Hdrs[i].V = freshNonce()
+		}
 	}
-	return rp
+	return &c2
 }
 
 // session: the application instance(s) of one bubble.
 type session struct {
-	r    *runner.Run
-	slot int
-	dsl  string
-	a    *app.VerifApp
+	r        *runner.Run
+	slot     int
+	dsl      string
+	a        *app.VerifApp
+	sentinel string
+	onBoot   func(a *app.VerifApp) // re-installs injected clients after a reboot
 }
 
 // boot performs the production boot sequence from the DSL text and puts one sentinel message
@@ -515,7 +512,10 @@ func (s *session) boot(sentinelRoute string) bool {
 		s.r.Infra("boot failed: %v\n%s", err, s.dsl)
 		return false
 	}
-	s.a = a
+	s.a, s.sentinel = a, sentinelRoute
+	if s.onBoot != nil {
+		s.onBoot(a)
+	}
 	if a.Ingress == nil || a.Backend != "memory" {
 		s.r.Infra("boot: ingress handler %v backend %q", a.Ingress != nil, a.Backend)
 		return false
@@ -656,16 +656,6 @@ func hmacBubble(t *testing.T, r *runner.Run, slot int, j hmacJob) {
 			cases := g.all()
 			now := time.Now()
 			baseValid := hmacAccepts(cfg, cases[0], now)
-			renonce := func(c *reqCase) *reqCase {
-				c2 := *c
-				c2.Hdrs = append([]hdr(nil), c.Hdrs...)
-				for i := range c2.Hdrs {
-					if strings.HasPrefix(c2.Hdrs[i].V, "n-") && ows(c2.Hdrs[i].V) == c2.Hdrs[i].V {
-						c2.Hdrs[i].V = freshNonce()
-					}
-				}
-				return &c2
-			}
 			for _, c := range cases {
 				if sent > 0 && sent%chunk == 0 {
 					if !s.reboot(cfg.Route) {
@@ -676,7 +666,7 @@ func hmacBubble(t *testing.T, r *runner.Run, slot int, j hmacJob) {
 				sent++
 				ref := hmacAccepts(cfg, c, now)
 				allowed := unroutedAllowed(routedTo(cfg.Route, cfg.Methods, c), []int{http.StatusUnauthorized})
-				e.run(c, ref, allowed, baseValid || c.Class == "base", renonce)
+				e.run(c, ref, allowed, baseValid || c.Class == "base")
 			}
 		}
 	})
@@ -708,7 +698,7 @@ func runBasic(t *testing.T, r *runner.Run) {
 		e := &env{r: r, s: s, family: "basic", cfgName: "two-users", dsl: dsl, route: "/b", where: "-", tl: tl, sample: true}
 		for _, c := range basicCases("/b", r.Thorough()) {
 			ref := basicAccepts(users, c)
-			e.run(c, ref, unroutedAllowed(routedTo("/b", []string{"POST"}, c), []int{http.StatusUnauthorized}), true, nil)
+			e.run(c, ref, unroutedAllowed(routedTo("/b", []string{"POST"}, c), []int{http.StatusUnauthorized}), true)
 		}
 	})
 }
@@ -789,7 +779,8 @@ func runForward(t *testing.T, r *runner.Run) {
 	defer tl.flush(r)
 	bubble(t, r, 0, dsl, "/f", time.Time{}, func(s *session) {
 		rt := &fwdRT{}
-		s.a.VerifForwardAuthClient(&http.Client{Transport: rt})
+		s.onBoot = func(a *app.VerifApp) { a.VerifForwardAuthClient(&http.Client{Transport: rt}) }
+		s.onBoot(s.a)
 		for _, route := range []string{"/f", "/g"} {
 			e := &env{r: r, s: s, family: "forward", cfgName: "route" + route, dsl: dsl, route: route, fwd: rt, tl: tl, sample: true}
 			first := true
@@ -807,13 +798,117 @@ func runForward(t *testing.T, r *runner.Run) {
 					c.Probe, first = true, false
 				}
 				calls, t0 := rt.calls, time.Now()
-				e.run(c, accept, []int{rej}, true, nil)
+				e.run(c, accept, []int{rej}, true)
 				if rt.calls == calls {
 					tl.n["forward_service_not_consulted"]++
 				}
 				if b.Mode == "hang" {
 					r.Set("forward_hang_virtual_wait"+strings.ReplaceAll(route, "/", "_"), time.Since(t0).String())
 				}
+			}
+		}
+	})
+}
+
+// ---------------------------------------------------------------- several authenticated routes in one configuration
+
+// Four routes with four different authenticators in one file; every subset of six kinds of
+// credentials is sent to every route. A route must only honour its own authenticator.
+type apiKeyRT struct{ calls int }
+
+func (f *apiKeyRT) RoundTrip(req *http.Request) (*http.Response, error) {
+	f.calls++
+	if req.Body != nil {
+		io.Copy(io.Discard, req.Body)
+		req.Body.Close()
+	}
+	st := 401
+	if req.Header.Get("X-Api-Key") == "the-good-api-key" {
+		st = 204
+	}
+	return &http.Response{StatusCode: st, Status: itoa(st), Proto: "HTTP/1.1", ProtoMajor: 1, ProtoMinor: 1, Header: http.Header{}, Body: http.NoBody, Request: req}, nil
+}
+
+func runCombined(t *testing.T, r *runner.Run) {
+	cfgA := &hmacCfg{Name: "combined/a", Route: "/a", Methods: []string{"POST"}, SigH: "X-Signature", TsH: "X-Timestamp", NonceH: "X-Nonce", Tol: 5 * time.Minute, Inline: []string{"k-route-a-1f"}}
+	cfgZ := &hmacCfg{Name: "combined/z", Route: "/z", Methods: []string{"POST"}, SigH: "X-Z-Signature", TsH: "X-Z-Timestamp", NonceH: "X-Z-Nonce", Tol: 5 * time.Minute, Inline: []string{"k-route-z-2e"}, Custom: true}
+	users := map[string]string{}
+	var b strings.Builder
+	b.WriteString(dslHead(0))
+	fmt.Fprintf(&b, "/a {\n  queue { backend memory }\n  auth hmac %q\n  pull { path /pull/a }\n}\n", "raw:"+cfgA.Inline[0])
+	b.WriteString("/b {\n  queue { backend memory }\n")
+	for _, u := range basicUsers {
+		users[u.User] = u.Pass
+		fmt.Fprintf(&b, "  auth basic %q %q\n", u.User, u.Pass)
+	}
+	b.WriteString("  pull { path /pull/b }\n}\n")
+	b.WriteString("/f {\n  queue { backend memory }\n  auth forward \"http://auth.internal.test/check\"\n  pull { path /pull/f }\n}\n")
+	fmt.Fprintf(&b, "/z {\n  queue { backend memory }\n  auth hmac {\n    secret %q\n    signature_header %q\n    timestamp_header %q\n    nonce_header %q\n  }\n  pull { path /pull/z }\n}\n",
+		"raw:"+cfgZ.Inline[0], cfgZ.SigH, cfgZ.TsH, cfgZ.NonceH)
+	dsl := b.String()
+	at := epoch.Add(time.Hour)
+	ts := strconv.FormatInt(at.Unix(), 10)
+	tl := newTally()
+	defer tl.flush(r)
+	bubble(t, r, 0, dsl, "/a", at, func(s *session) {
+		s.onBoot = func(a *app.VerifApp) { a.VerifForwardAuthClient(&http.Client{Transport: &apiKeyRT{}}) }
+		s.onBoot(s.a)
+		type cred struct {
+			name string
+			add  func(c *reqCase, path string)
+		}
+		hm := func(key string, names *hmacCfg) func(c *reqCase, path string) {
+			return func(c *reqCase, path string) {
+				c.Hdrs = append(c.Hdrs, hdr{names.SigH, sign([]byte(key), ts, c.Method, path, c.Body)}, hdr{names.TsH, ts}, hdr{names.NonceH, freshNonce()})
+			}
+		}
+		creds := []cred{
+			{"hmacA", hm(cfgA.Inline[0], cfgA)},
+			{"hmacZ", hm(cfgZ.Inline[0], cfgZ)},
+			{"keyA-under-Z-names", hm(cfgA.Inline[0], cfgZ)},
+			{"keyZ-under-A-names", hm(cfgZ.Inline[0], cfgA)},
+			{"basic", func(c *reqCase, _ string) {
+				c.Hdrs = append(c.Hdrs, hdr{"Authorization", basicHeader(basicUsers[0].User + ":" + basicUsers[0].Pass)})
+			}},
+			{"apikey", func(c *reqCase, _ string) { c.Hdrs = append(c.Hdrs, hdr{"X-Api-Key", "the-good-api-key"}) }},
+		}
+		own := map[string]string{"/a": "hmacA", "/z": "hmacZ", "/b": "basic", "/f": "apikey"}
+		for _, route := range []string{"/a", "/b", "/f", "/z"} {
+			e := &env{r: r, s: s, family: "combined", cfgName: "four-routes", dsl: dsl, route: route, tl: tl, sample: true}
+			for mask := 0; mask < 1<<len(creds); mask++ {
+				c := &reqCase{Class: "credentials-of", Method: "POST", Target: route, Body: append([]byte(nil), baseBody...), Hdrs: []hdr{{"Content-Type", "application/json"}}}
+				var names []string
+				conflict := false
+				for i, cr := range creds {
+					if mask&(1<<i) == 0 {
+						continue
+					}
+					// two credentials that use the same header names cannot be sent together
+					if (cr.name == "keyA-under-Z-names" && mask&2 != 0) || (cr.name == "keyZ-under-A-names" && mask&1 != 0) {
+						conflict = true
+					}
+					cr.add(c, route)
+					names = append(names, cr.name)
+				}
+				if conflict {
+					continue
+				}
+				c.Detail = "{" + strings.Join(names, ",") + "}"
+				e.where = "route=" + route + ":creds=" + c.Detail
+				c.Probe = len(names) == 1 && names[0] == own[route]
+				var ref bool
+				allowed := []int{http.StatusUnauthorized}
+				switch route {
+				case "/a":
+					ref = hmacAccepts(cfgA, c, time.Now())
+				case "/z":
+					ref = hmacAccepts(cfgZ, c, time.Now())
+				case "/b":
+					ref = basicAccepts(users, c)
+				case "/f":
+					ref = len(headerValues(c.Hdrs, "X-Api-Key")) > 0 // the auth service answers 204 for the good key, 401 otherwise
+				}
+				e.run(c, ref, allowed, true)
 			}
 		}
 	})
@@ -840,6 +935,7 @@ func runConfigGuards(t *testing.T, r *runner.Run) {
 		{"hmac-signature-header-equals-nonce-header", "auth hmac {\n secret \"raw:k1\"\n signature_header \"X-Nonce\"\n}"},
 		{"hmac-timestamp-header-equals-nonce-header", "auth hmac {\n secret \"raw:k1\"\n nonce_header \"X-Timestamp\"\n}"},
 		{"hmac-options-without-secret", "auth hmac {\n tolerance 5m\n}"},
+		{"hmac-empty-block", "auth hmac {\n}"},
 		{"basic-empty-password", `auth basic "u" ""`},
 		{"basic-empty-user", `auth basic "" "p"`},
 		{"forward-empty-url", `auth forward ""`},
@@ -866,9 +962,36 @@ func runConfigGuards(t *testing.T, r *runner.Run) {
 				r.Infra("sentinel enqueue: %v", err)
 				return
 			}
-			e := &env{r: r, s: &session{r: r, dsl: dsl, a: a}, family: "config", cfgName: g.name, dsl: dsl, route: "/c", where: "booted", fwd: rt, tl: tl, sample: true}
-			c := &reqCase{Class: "no-credentials", Method: "POST", Target: "/c", Body: append([]byte(nil), baseBody...), Hdrs: []hdr{{"Content-Type", "application/json"}}}
-			e.run(c, false, []int{401, 403, 503}, true, nil)
+			e := &env{r: r, s: &session{r: r, dsl: dsl, a: a}, family: "config", cfgName: g.name, dsl: dsl, route: "/c", where: "-", fwd: rt, tl: tl, sample: true}
+			// No request that lacks the credentials of at least one declared authenticator may be
+			// enqueued: none at all, Basic only, HMAC only (auth service refusing), auth service
+			// allowing but nothing else.
+			ts := strconv.FormatInt(time.Now().Unix(), 10)
+			basicOnly := []hdr{{"Authorization", basicHeader("u:p")}}
+			hmacOnly := func() []hdr {
+				return []hdr{{"X-Signature", sign([]byte("k1"), ts, "POST", "/c", baseBody)}, {"X-Timestamp", ts}, {"X-Nonce", freshNonce()}}
+			}
+			declared := strings.Count(g.route, "auth ")
+			for _, cs := range []struct {
+				name     string
+				hdrs     []hdr
+				fwdAllow bool
+			}{
+				{"no-credentials", nil, false},
+				{"basic-only", basicOnly, false},
+				{"hmac-only", hmacOnly(), false},
+				{"auth-service-allows-only", nil, true},
+			} {
+				if cs.name != "no-credentials" && declared < 2 {
+					continue // a single declared authenticator: only the request without credentials is certainly invalid
+				}
+				rt.b = fwdBehaviour{Mode: "error-refused"}
+				if cs.fwdAllow {
+					rt.b = fwdBehaviour{Mode: "status", Status: 200}
+				}
+				c := &reqCase{Class: cs.name, Method: "POST", Target: "/c", Body: append([]byte(nil), baseBody...), Hdrs: append([]hdr{{"Content-Type", "application/json"}}, cs.hdrs...)}
+				e.run(c, false, []int{401, 403, 503}, true)
+			}
 		})
 	}
 }
@@ -901,11 +1024,12 @@ func runReplay(t *testing.T, r *runner.Run, path string) {
 		e := &env{r: r, s: s, family: rp.Family, cfgName: rp.Config, dsl: rp.DSL, route: rp.Route, where: rp.Where, tl: tl}
 		if rp.FwdMode != "" {
 			e.fwd = &fwdRT{b: fwdBehaviour{rp.FwdMode, rp.FwdStatus}}
-			s.a.VerifForwardAuthClient(&http.Client{Transport: e.fwd})
+			s.onBoot = func(a *app.VerifApp) { a.VerifForwardAuthClient(&http.Client{Transport: e.fwd}) }
+			s.onBoot(s.a)
 		}
 		v := e.evalOnce(c, rp.RefAccepts, rp.Allowed)
 		fmt.Printf("REPLAY %s %s %s -> status %d, failure %q %s\n", rp.Family, rp.Class, rp.Detail, v.Status, v.Kind, v.Msg)
-		e.run(c, rp.RefAccepts, rp.Allowed, true, nil)
+		e.run(c, rp.RefAccepts, rp.Allowed, true)
 	})
 }
 
@@ -917,6 +1041,7 @@ func TestCheck(t *testing.T) {
 	if p := runner.ReplayPath(); p != "" {
 		runReplay(t, r, p)
 		r.Set("rule", "replay of one recorded case")
+		os.Setenv("VERIF_EVIDENCE", scratch+"/replay-evidence.json") // a replay must not overwrite the evidence of the full run
 		r.Finish()
 	}
 	if pf := os.Getenv("C08_CPUPROF"); pf != "" {
@@ -927,6 +1052,7 @@ func TestCheck(t *testing.T) {
 	runConfigGuards(t, r)
 	runBasic(t, r)
 	runForward(t, r)
+	runCombined(t, r)
 	runHMAC(t, r, deadline)
 
 	r.Set("rule", "complete finite products, one real request per element through the ingress handler wired by startServers from DSL text: "+
